@@ -3,6 +3,8 @@ package props
 import (
 	"fmt"
 
+	"github.com/trajectoryjp/spatial_id_go/v4/integrate"
+
 	"verif/mc/engine"
 	"verif/mc/ref"
 )
@@ -39,6 +41,61 @@ func init() {
 						c.Outcome(fmt.Sprint(ids, th, tv))
 						for _, x := range viol {
 							c.Violation(x.Sig, x.Detail)
+						}
+					}},
+				{Name: "far-targets", ShardDepth: 2, Bounds: engine.Bounds{InputDev: -1},
+					Rule: "lists of 1-3 fine IDs (zoom pairs (25,25), (30,30), (35,35), (35,20), (20,35); single, two siblings, two stacked; f in {5,-1}) merged to targets 20 .. 35 levels coarser on either axis (the number of unit cells of a target voxel reaches and exceeds 2^63): such lists can never fill the target voxel, so the result is the input set (model), through both entry points; non-trivial = distinct (list, target) with 2*dh+dv >= 63",
+					Body: func(c *engine.Ctx) {
+						fz := [][2]int64{{25, 25}, {30, 30}, {35, 35}, {35, 20}, {20, 35}}[c.In("fine", 5)]
+						f := []int64{5, -1}[c.In("f", 2)]
+						a := ref.Vox{H: fz[0], X: (int64(1) << uint(fz[0])) - 3, Y: 5, V: fz[1], F: f}
+						var l []ref.Vox
+						switch c.In("shape", 3) {
+						case 0:
+							l = []ref.Vox{a}
+						case 1:
+							l = []ref.Vox{a, a.Shift(1, 0, 0)}
+						case 2:
+							l = []ref.Vox{a.Shift(0, 0, 1), a}
+						}
+						dhs := []int64{0, 20, 21, 22, 31, 32, 35}
+						dvs := []int64{0, 20, 21, 23, 35}
+						th := fz[0] - dhs[c.In("dh", len(dhs))]
+						tv := fz[1] - dvs[c.In("dv", len(dvs))]
+						if th < 0 || tv < 0 {
+							c.Skip("target-zoom-below-0")
+						}
+						ids := ref.Exts(l)
+						want := canonSet(ref.Merge(l, th, tv))
+						got, err := integrate.MergeExtendedSpatialIds(ids, th, tv)
+						call := fmt.Sprintf("integrate.MergeExtendedSpatialIds(%s, %d, %d)", goList(ids), th, tv)
+						c.Observe("%s -> %v %v", call, got, err)
+						if 2*(fz[0]-th)+(fz[1]-tv) >= 63 {
+							c.Nontrivial(call)
+						}
+						c.Outcome(fmt.Sprint(len(got)))
+						d := map[string]any{"call": call, "got": head(got, 6), "want": head(want, 6)}
+						if err != nil {
+							c.Violation("C04:MergeExtendedSpatialIds:error-on-valid-input", d)
+							return
+						}
+						if m, e := diffSets(got, want); len(m)+len(e) > 0 || dupOf(got) != "" {
+							c.Violation("C04:MergeExtendedSpatialIds:result-set-differs-from-dyadic-model[far-target]", d)
+						}
+						if fz[0] == fz[1] && th == tv && f >= -(int64(1)<<uint(fz[0]-1)) {
+							sp := make([]string, len(l))
+							ws := make([]string, 0, len(want))
+							for i, x := range l {
+								sp[i] = x.Spatial()
+							}
+							for _, w := range want {
+								ws = append(ws, ref.MustExt(w).Spatial())
+							}
+							gs, err := integrate.MergeSpatialIds(sp, th)
+							if m, e := diffSets(gs, ws); err != nil || len(m)+len(e) > 0 {
+								d["spatial_got"] = head(gs, 6)
+								c.Violation("C04:MergeSpatialIds:result-set-differs-from-dyadic-model[far-target]", d)
+							}
 						}
 					}},
 				{Name: "voxelsets-machine-merge", Custom: runVoxWorlds("C04", "M", tier), ReplayCustom: replayVoxWorld("C04", "M", tier),
